@@ -101,6 +101,18 @@ def run(ck):
         modes = [0o755] * len(g) if rng.random() < 0.5 else [rng.choice([0o700, 0o755, 0o750, 0o711, 0o1777]) for _ in g]
         cjobs.append({"id": jid, "tree": tree, "op": {"k": "concurrent", "ops": [{"k": "mkdir_all", "path": H(p), "mode": m_} for p, m_ in zip(g, modes)]},
                       "post_raws": [{"path": H(p), "flags": O["PATH"], "resolve": RES} for p in g], "meta": {"paths": g}})
+    # ... and a caller that is bound to fail AFTER it has created part of a prefix it shares with valid callers (a final component
+    # longer than NAME_MAX): whatever it does on its way out, the valid callers still succeed, with handles to the directories now
+    # at their paths.  The window is narrow and the scheduler is the real one, hence many rounds.
+    LONG = "L" * 300
+    DOOMED = [[("q1/q2/q3/" + LONG, True), ("q1/q2/q3/ok", False)], [("r1/r2/" + LONG, True), ("r1/r2/x/y", False), ("r1/r2", False)],
+              [("a/b/s1/s2/" + LONG + "/t", True), ("l/s1/s2/u", False)]]
+    for i in range(400 if thorough else 120):
+        g = DOOMED[i % len(DOOMED)]
+        jid += 1
+        cjobs.append({"id": jid, "tree": tree, "op": {"k": "concurrent", "ops": [{"k": "mkdir_all", "path": H(p), "mode": 0o755} for p, _ in g]},
+                      "post_raws": [{"path": H(p), "flags": O["PATH"], "resolve": RES} for p, _ in g],
+                      "meta": {"paths": [p if not d_ else p[:12] + "...(300 bytes)" for p, d_ in g], "doomed": [d_ for _, d_ in g]}})
     byid = {j["id"]: j for j in jobs + cjobs}
     stats = {"ops": 0, "created_ok": 0, "failed": 0, "races": 0, "t1_ok": 0, "t1_bad": 0, "chain_len": {}, "mode_refused": 0}
     nontrivial = set()
@@ -135,10 +147,16 @@ def run(ck):
                 if any("panic" in o for o in outs):
                     ck.violation("C12: a racing mkdir_all panicked", desc)
                     continue
-                if not all("ok" in o for o in outs):
-                    ck.violation("C12: concurrent mkdir_all calls for equal/overlapping paths did not all succeed", desc)
+                doomed = job["meta"].get("doomed") or [False] * len(outs)
+                if doomed != [False] * len(outs):
+                    stats["races_with_a_doomed_caller"] = stats.get("races_with_a_doomed_caller", 0) + 1
+                if not all("ok" in o for o, d_ in zip(outs, doomed) if not d_):
+                    ck.violation("C12: concurrent mkdir_all calls for equal/overlapping paths did not all succeed" +
+                                 (" (the caller that fails is the one whose own path cannot be created; the others have no reason to)" if any(doomed) else ""), desc)
                     continue
-                for o, pr, p in zip(outs, prs, job["meta"]["paths"]):
+                for o, pr, p, d_ in zip(outs, prs, job["meta"]["paths"], doomed):
+                    if d_:
+                        continue
                     if "ok" not in pr or (pr["ok"]["dev"], pr["ok"]["ino"]) != (o["ok"]["dev"], o["ok"]["ino"]):
                         ck.violation("C12: a racing mkdir_all returned a handle that is not the directory now at its path", dict(desc, path=p, kernel=pr))
                         break
@@ -279,7 +297,7 @@ def run(ck):
         "samples": samples or [{"note": "none"}],
         "traces_checked_by_chain_monitor": stats.get("monitored", 0),
         "successful_calls": stats["created_ok"], "failed_calls": stats["failed"], "invalid_modes_refused": stats["mode_refused"],
-        "racing_groups": stats["races"], "created_chain_length_histogram": stats["chain_len"],
+        "racing_groups": stats["races"], "racing_groups_with_a_caller_bound_to_fail": stats.get("races_with_a_doomed_caller", 0), "created_chain_length_histogram": stats["chain_len"],
         "traces_validated_against_impl": stats["t1_ok"], "t1_mismatches": stats["t1_bad"], "disagreements_checked": stats["t1_bad"],
     }
     cov.update(D.coverage(stats))
